@@ -50,6 +50,8 @@ class TransitionDipoleMoment(SelfAdjointOperator, BasisManaged):
         else:
             S1 = inv
         #S1 = scipy.linalg.inv(SS)
+        # the values are written back into the storage
+        self._data = self._storage_for_transform(self._data, SS)
         for i in range(3):
             self._data[:,:,i] = numpy.dot(S1,numpy.dot(self._data[:,:,i],SS))
         
